@@ -192,6 +192,14 @@ def check(res, tier):
         ("error-at-first-token", {"main.ddp": ". Die Zahl z ist 1.\n"}),
         ("error-inside-alias-string", {"main.ddp": H + 'Die Funktion a3 mit dem Parameter p vom Typ Zahl, gibt eine Zahl zurück, macht:\n\tGib p zurück.\nUnd kann so benutzt werden:\n\t"nimm <q> statt p"\n'}),
     ]
+    # an error behind text whose letters take more than one byte, on the same line and close to its end: positions count
+    # code points, whatever stands before them (comment, text literal, character literal, identifier), on the line or on the lines before
+    WIDE = "ääööüüßß€€€😀😀"
+    for wl, before in (("comment", "[ %s ] " % WIDE), ("comment-two-lines", "[ erste Zeile\n%s ] " % WIDE), ("comment-wide-first-line", "[ %s\nzweite ] " % WIDE),
+                       ("text-literal", 'Der Text t%d ist "%s". ' % (1, WIDE)), ("char-literals", "Der Buchstabe b1 ist 'ä'. Der Buchstabe b2 ist '😀'. "),
+                       ("identifier", "Die Zahl grüße_ößü ist 1. ")):
+        for el, err in (("unknown-name", "Die Zahl z ist q."), ("missing-dot", "Die Zahl z ist 1"), ("type-error", 'Die Zahl z ist "x".')):
+            corpus.append(("wide-before-error:%s:%s" % (wl, el), {"main.ddp": H + before + err + "\n"}))
     corpus += illtyped_contexts(quick) + import_clashes()
     for name, files in corpus:
         reqs.append(("corpus:" + name, {"files": files, "main": "main.ddp"}))
